@@ -193,6 +193,74 @@ func refBipartiteKneser(n, k int) *rg.G {
 	return g
 }
 
+// colexSubsets lists the k-subsets of {0..n-1} as ascending element lists in
+// colexicographic order (compare the largest elements first): the subsets with
+// largest element x are the (k-1)-subsets of {0..x-1} in colex order, each
+// with x added, for x = k-1, k, ..., n-1.  No machine-word masks: n is not
+// limited by a word size.
+func colexSubsets(n, k int) [][]int {
+	if k < 0 || k > n {
+		return nil
+	}
+	if k == 0 {
+		return [][]int{{}}
+	}
+	var out [][]int
+	for x := k - 1; x < n; x++ {
+		for _, s := range colexSubsets(x, k-1) {
+			out = append(out, append(append(make([]int, 0, k), s...), x))
+		}
+	}
+	return out
+}
+
+// commonElements counts the elements two ascending lists share.
+func commonElements(a, b []int) int {
+	c := 0
+	for i, j := 0, 0; i < len(a) && j < len(b); {
+		switch {
+		case a[i] == b[j]:
+			c++
+			i++
+			j++
+		case a[i] < b[j]:
+			i++
+		default:
+			j++
+		}
+	}
+	return c
+}
+
+// refKneserSets is refKneser on element lists (any size of the ground set).
+func refKneserSets(n, k int) *rg.G {
+	s := colexSubsets(n, k)
+	g := rg.New(len(s))
+	for i := range s {
+		for j := 0; j < i; j++ {
+			if commonElements(s[i], s[j]) == 0 {
+				g.Add(i, j)
+			}
+		}
+	}
+	return g
+}
+
+// refBipartiteKneserSets is refBipartiteKneser on element lists.
+func refBipartiteKneserSets(n, k int) *rg.G {
+	a := colexSubsets(n, k)
+	b := colexSubsets(n, n-k)
+	g := rg.New(len(a) + len(b))
+	for i := range a {
+		for j := range b {
+			if c := commonElements(a[i], b[j]); c == len(a[i]) || c == len(b[j]) {
+				g.Add(i, len(a)+j)
+			}
+		}
+	}
+	return g
+}
+
 func mod(a, n int) int {
 	a %= n
 	if a < 0 {
@@ -362,19 +430,47 @@ func (w *bitWriter) put(v, k int) {
 	}
 }
 
-// sizeBytes is N(n) of formats.txt for n <= 258047.
+// sizeBytes is N(n) of formats.txt: one byte n+63 for n <= 62, 126 and 18 bits
+// for n <= 258047, 126 126 and 36 bits above.
 func sizeBytes(n int) []byte {
 	if n <= 62 {
 		return []byte{byte(n + 63)}
 	}
-	return []byte{126, byte(n>>12&63) + 63, byte(n>>6&63) + 63, byte(n&63) + 63}
+	if n <= 258047 {
+		return []byte{126, byte(n>>12&63) + 63, byte(n>>6&63) + 63, byte(n&63) + 63}
+	}
+	out := []byte{126, 126}
+	for sh := 30; sh >= 0; sh -= 6 {
+		out = append(out, byte(n>>uint(sh)&63)+63)
+	}
+	return out
+}
+
+// longSize writes n in the 4-byte (width 18) or the 8-byte (width 36) form of
+// N(n) whether or not n needs that form (formats.txt defines the long forms
+// only for the sizes that need them: strings with such a header are used for
+// observation only).
+func longSize(n, width int) []byte {
+	out := []byte{126}
+	if width == 36 {
+		out = append(out, 126)
+	}
+	for sh := width - 6; sh >= 0; sh -= 6 {
+		out = append(out, byte(n>>uint(sh)&63)+63)
+	}
+	return out
 }
 
 // refSparse6 writes g in sparse6 as described in formats.txt (nauty): ':',
 // N(n), then the b[i] x[i] stream with k = bits needed for n-1, padded with
 // 1-bits (with the single 0-bit exception for n = 2, 4, 8, 16).
 func refSparse6(g *rg.G) string {
-	n := g.N
+	return refSparse6Edges(g.N, g.Edges())
+}
+
+// refSparse6Edges is the same writer for a graph given by its edge list (any
+// order, each edge once, no loops); usable for very large n.
+func refSparse6Edges(n int, edges [][2]int) string {
 	out := append([]byte{':'}, sizeBytes(n)...)
 	k := 0
 	for (1 << uint(k)) < n { // number of bits needed to represent n-1
@@ -386,11 +482,15 @@ func refSparse6(g *rg.G) string {
 	// edges sorted by larger end point, then smaller
 	type e struct{ u, v int }
 	var es []e
-	for v := 0; v < n; v++ {
-		for u := 0; u <= v; u++ {
-			if u != v && g.Has(u, v) {
-				es = append(es, e{u, v})
-			}
+	touched := map[int]bool{}
+	for _, p := range edges {
+		u, v := p[0], p[1]
+		if u > v {
+			u, v = v, u
+		}
+		if u != v {
+			es = append(es, e{u, v})
+			touched[u], touched[v] = true, true
 		}
 	}
 	sort.SliceStable(es, func(i, j int) bool {
@@ -419,7 +519,7 @@ func refSparse6(g *rg.G) string {
 		}
 	}
 	pad := (6 - len(w.bits)%6) % 6
-	if (n == 2 || n == 4 || n == 8 || n == 16) && pad >= k+1 && g.Deg(n-2) > 0 && g.Deg(n-1) == 0 {
+	if (n == 2 || n == 4 || n == 8 || n == 16) && pad >= k+1 && touched[n-2] && !touched[n-1] {
 		w.put(0, 1)
 		pad--
 	}
